@@ -65,12 +65,14 @@ Scope / weakest readings
       strings and the `s` of placeholders do not;
     * unary plus (`+a`, accepted and dropped by the grammar) has no AST node and is not printed.
 
-FINDING (genuine, reported under fingerprint ``ident:underscore-after-reserved-word``): the grammar sets
-no ``@@namechars``, so TatSu's name guard lets a literal token end before an underscore:  `SELECT not_x`
-parses as NOT(_x), `SELECT null_x` and `SELECT a, true_x` are syntax errors, `SELECT a in_x` is a IN _x,
-`BALANCES at_x` is BALANCES AT _x, `FROM open_date(account)` dies on the OPEN cut.  The property
-quantifies over "all identifier spellings not reserved"; these identifiers match the published identifier
-rule and are not keywords.
+FINDING (genuine; found by this check on the pinned tree, fixed upstream of this check in repo commit
+0be7d7d by adding ``@@namechars :: '_'`` to bql.ebnf and regenerating parser.py; reported again under the
+fingerprint ``ident:underscore-after-reserved-word`` should it return): without ``@@namechars`` TatSu's name
+guard lets a literal token end before an underscore:  `SELECT not_x` parsed as NOT(_x), `SELECT null_x` and
+`SELECT a, true_x` were syntax errors, `SELECT a in_x` was `a IN _x`, `SELECT distinct_x` was SELECT
+DISTINCT _x, `BALANCES at_x` was BALANCES AT _x, `SELECT select_x` a sub-select.  The property quantifies
+over "all identifier spellings not reserved"; these identifiers match the published identifier rule and are
+not keywords.
 """
 import collections
 import datetime
@@ -109,12 +111,21 @@ _REGEN = None          # module generated from bql.ebnf (set by load_regenerated
 _REGEN_INFO = {}
 
 
+def grammar_words(grammar):
+    """Alphabetic literal tokens of the grammar text, lower case (to cross-check vt.unparse.RESERVED)."""
+    import re
+    body = '\n'.join(line for line in grammar.splitlines() if not line.startswith('@@comments') and not line.startswith('@@eol_comments'))
+    return {w.lower() for w in re.findall(r"'([A-Za-z]+)'", body)}
+
+
 def load_regenerated():
     """Generate a parser from the grammar file of the tree under test and import it from a temporary
     directory outside /repo and /verif, which is deleted before returning."""
     global _REGEN
     with open(GRAMMAR) as f:
         grammar = f.read()
+    _REGEN_INFO['grammar_word_tokens_missing_from_RESERVED'] = sorted(grammar_words(grammar) - RESERVED)
+    _REGEN_INFO['RESERVED_words_not_in_grammar'] = sorted(RESERVED - grammar_words(grammar))
     source = tatsu.to_python_sourcecode(grammar)
     try:
         with open(SHIPPED) as f:
@@ -859,6 +870,9 @@ def replay(case):
 
 def run(ctx):
     load_regenerated()
+    if _REGEN_INFO['grammar_word_tokens_missing_from_RESERVED']:
+        # the printer would use these words as identifiers: a harness problem, not a verdict
+        raise AssertionError(f"the grammar has word tokens unknown to vt.unparse.RESERVED: {_REGEN_INFO['grammar_word_tokens_missing_from_RESERVED']}")
     diff_all = ctx.thorough or not _REGEN_INFO['generated_source_identical_to_shipped_parser_py'] or bool(os.environ.get('C06_DIFF_ALL'))
     total = par.run_shards(shard_fn, ctx.jobs, ctx.tier, ctx.seed, diff_all, nshards=ctx.jobs * 4)
     n = total.n
